@@ -656,15 +656,17 @@ def differential(ctx, entries, replay_case=None):
                           "significant digits; theorems C04_roundtrip* assume H_num" % ent.name,
                           {"kind": "contract-monitor", "entry": ent.name, "case": c, "impl_output": o, "verdict": v,
                            "class": None}, found_input=bool(v & 2))
-        if disagree and not failing and replay_case is None:
+        # search for a failing input when the model disagrees somewhere and no failing input OUTSIDE the known class is at hand
+        if disagree and not [t for t in failing if not t[2] & 4] and replay_case is None:
             for rnd in range(1, ent.search_rounds + 1):
                 extra = list(ent.cases(ctx, rnd))
                 for c in extra:
                     c.setdefault("entry", ent.name)
                 res2 = run_entry(ctx, PRE, ent, extra, "s%d_%s" % (rnd, ent.name))
                 ctx.count("search_cases:" + ent.name, len(res2))
-                failing = [(c, o, v) for c, o, v in res2 if v & 3 >= 2]
-                if failing:
+                more = [(c, o, v) for c, o, v in res2 if v & 3 >= 2]
+                failing = failing + more
+                if [t for t in more if not t[2] & 4]:
                     break
         by_class = {}
         # one representative per class: a corpus case (witness of a repaired / recorded defect) if one fails, else the smallest
